@@ -467,7 +467,17 @@ def rule_ast_leak(prog, rep, tier, anchors=("docstring_parsers._infer_default",)
                 # statements that rewrite the default
                 if isinstance(st, ast.Assign) and any(_is_default_read(t) for t in st.targets) and node.kind not in ("if", "for", "while", "try"):
                     v = st.value
-                    conv = any(isinstance(c, ast.Call) and getattr(c.func, "id", getattr(c.func, "attr", None)) in CONVERTERS for c in ast.walk(v)) \
+                    def converts(c):
+                        if getattr(c.func, "id", getattr(c.func, "attr", None)) in CONVERTERS:
+                            return True
+                        # a package helper that does the conversion (`_literal_or_code_quoted(node)`)
+                        if isinstance(c.func, (ast.Name, ast.Attribute)):
+                            for t in prog.resolve_expr_fn(c.func, c):
+                                if isinstance(t, FunctionInfo) and any(isinstance(x, ast.Call) and getattr(x.func, "id", getattr(x.func, "attr", None)) in ("literal_eval", "to_code", "get_value", "unparse")
+                                                                        for x in ast.walk(t.node)):
+                                    return True
+                        return False
+                    conv = any(isinstance(c, ast.Call) and converts(c) for c in ast.walk(v)) \
                         or isinstance(v, (ast.Constant, ast.JoinedStr)) or (isinstance(v, ast.Name) and not _is_default_read(v))
                     if conv:
                         may_be_node = False
